@@ -65,11 +65,12 @@ def build_demo(wt, demo, outbin, san):
     src = open(demo).read()
     extra = re.findall(r"-D\w+(?:=\w+)?", "\n".join(l for l in src.splitlines()[:40] if "gcc" in l or "cc " in l or "clang" in l))
     flags += " " + " ".join(sorted(set(extra) - {"-DNO_HOOKS"} if not san else set(extra)))
+    ldextra = " ".join(sorted(set(re.findall(r"-Wl,[^\s\\]+", "\n".join(src.splitlines()[:40])))))
     includes_c = re.search(r'#include\s+"[^"]*cJSON\.c"', src) is not None
     libs = "" if includes_c else " %s/cJSON.c %s/cJSON_Utils.c" % (wt, wt)
     if includes_c and not re.search(r'#include\s+"[^"]*cJSON_Utils\.c"', src) and "cJSONUtils_" in src:
         libs = " %s/cJSON_Utils.c" % wt
-    cmd = "gcc %s %s%s -lm -lpthread -o %s" % (flags, os.path.abspath(demo), libs, outbin)
+    cmd = "gcc %s %s%s -lm -lpthread %s -o %s" % (flags, os.path.abspath(demo), libs, ldextra, outbin)
     return sh(cmd, cwd=wt)
 
 
